@@ -53,16 +53,23 @@ func newReal(name string, maxID int, round bool) *gridSpec {
 var setVariants = []string{"matrices-x2", "tiles-512", "tiles-128", "from-1"}
 
 // loadSet: a built-in tile matrix set, or a variant of one: every matrix of twice as many tiles each way (a first matrix of 2 x 2 tiles),
-// tiles of 512 or 128 pixels (the cell sizes kept), the first matrix dropped and the others renumbered from 0
+// tiles of 512 or 128 pixels (the cell sizes kept), the first matrix dropped and the others renumbered from 0, the whole set moved by a
+// quarter of its width
 func loadSet(name string) (tms20.TileMatrixSet, error) {
 	base, variant, _ := strings.Cut(name, "+")
 	t, err := tms20.LoadEmbeddedTileMatrixSet(base)
 	if err != nil || variant == "" {
 		return t, err
 	}
-	c := cloneTMS(t)
-	c.ID = name
+	c := cloneTMS(t) // under the id of the built-in set: nothing may be remembered by id
 	switch variant {
+	case "moved":
+		span := t.TileMatrices[0].CellSize * float64(t.TileMatrices[0].TileWidth)
+		for id, tm := range c.TileMatrices {
+			tm.PointOfOrigin[0] += span / 4
+			tm.PointOfOrigin[1] += span / 4
+			c.TileMatrices[id] = tm
+		}
 	case "matrices-x2":
 		for id, tm := range c.TileMatrices {
 			tm.MatrixWidth, tm.MatrixHeight = 2*tm.MatrixWidth, 2*tm.MatrixHeight
@@ -233,6 +240,7 @@ func (c *snapCase) runImpl() *snapResult {
 	case o = <-ch:
 		unmark()
 	case <-time.After(hangLimit):
+		unmark()                    // reported as a hang by the caller
 		idsBuf = make([]int, 0, 64) // the hung call still holds the old one
 		return &snapResult{hang: true, elapsed: time.Since(start)}
 	}
